@@ -6,9 +6,19 @@
 package main
 
 import (
+	"crypto/ecdsa"
+	"crypto/ed25519"
+	"crypto/elliptic"
+	crand "crypto/rand"
+	"crypto/rsa"
+	"crypto/x509"
 	"fmt"
 	"io"
+	"math/big"
 	"net"
+	"net/http"
+	"strings"
+	"sync"
 	"time"
 
 	"github.com/Tnze/go-mc/bot"
@@ -27,6 +37,23 @@ import (
 	"verif/ref/refwire"
 	"verif/vm"
 )
+
+var (
+	sessionKeyOnce sync.Once
+	sessionKey     []byte
+)
+
+// sessionKeyDER is the PKIX encoding of an RSA key generated once per process (chat sessions in player info).
+func sessionKeyDER() pk.ByteArray {
+	sessionKeyOnce.Do(func() {
+		k, err := rsa.GenerateKey(crand.Reader, 1024)
+		if err != nil {
+			panic(err)
+		}
+		sessionKey, _ = x509.MarshalPKIXPublicKey(&k.PublicKey)
+	})
+	return pk.ByteArray(sessionKey)
+}
 
 func cstr(s string) *refnbt.Value { return refnbt.St(s) }
 
@@ -200,7 +227,11 @@ func genManaged(r *vm.Rand, sections int, knownPlayer pk.UUID) managedPacket {
 				has := r.Bool()
 				fs = append(fs, pk.Boolean(has))
 				if has {
-					fs = append(fs, pk.UUID{9}, pk.Long(r.Int64B()), pk.ByteArray(r.Bytes([]int{0, 40, 294, 512}[r.Intn(4)])), pk.ByteArray(r.Bytes([]int{0, 30, 512}[r.Intn(3)])))
+					key := pk.ByteArray(r.Bytes([]int{0, 40, 294, 512}[r.Intn(4)]))
+					if r.Bool() {
+						key = sessionKeyDER() // a key the bot can parse: the session is accepted
+					}
+					fs = append(fs, pk.UUID{9}, pk.Long(r.Int64B()), key, pk.ByteArray(r.Bytes([]int{0, 30, 256, 512}[r.Intn(4)])))
 				}
 			}
 			if bits&4 != 0 {
@@ -397,7 +428,13 @@ func managedBot(c *vm.Ctx, r *vm.Rand) {
 	// a player the chat packets can refer to, then the packets under test
 	intro := pk.NewFixedBitSet(6)
 	intro.Set(0, true)
-	script = append(script, managedPacket{"PlayerInfoUpdate(intro)", pk.Marshal(packetid.ClientboundPlayerInfoUpdate, intro, pk.VarInt(1), known, pk.String("someone"), pk.VarInt(0))})
+	introFields := []pk.FieldEncoder{intro, pk.VarInt(1), known, pk.String("someone"), pk.VarInt(0)}
+	if r.Bool() {
+		// ... who also has a chat session with a well-formed key (the bot does not check the key's signature here)
+		intro.Set(1, true)
+		introFields = append(introFields, pk.Boolean(true), pk.UUID{9}, pk.Long(1<<40), sessionKeyDER(), pk.ByteArray(r.Bytes(256)))
+	}
+	script = append(script, managedPacket{"PlayerInfoUpdate(intro)", pk.Marshal(packetid.ClientboundPlayerInfoUpdate, introFields...)})
 	for k := r.Range(1, 6); k > 0; k-- {
 		mp := genManaged(r, sections, known)
 		if r.Intn(3) == 0 {
@@ -552,4 +589,78 @@ func indexByte(s string, b byte) int {
 		}
 	}
 	return len(s) - 1
+}
+
+
+// okTransport answers every HTTP request with 204 (the session server's "joined" reply): the bot's online
+// login can then proceed to the point where it uses the key the server sent.
+type okTransport struct{}
+
+func (okTransport) RoundTrip(req *http.Request) (*http.Response, error) {
+	return &http.Response{StatusCode: 204, Status: "No Content", Body: io.NopCloser(strings.NewReader("")), Header: http.Header{}, Request: req}, nil
+}
+
+var installTransport sync.Once
+
+// hostileEncryption: the server answers the login start with an encryption request carrying keys of every
+// kind and verify tokens of every size. The bot may fail the login; it must not panic.
+func hostileEncryption(c *vm.Ctx, r *vm.Rand) {
+	installTransport.Do(func() { http.DefaultClient.Transport = okTransport{} })
+	kinds := []string{"rsa-1024", "ed25519", "ecdsa-p256", "rsa-tiny-modulus", "garbage", "empty", "truncated-rsa"}
+	kind := kinds[r.Intn(len(kinds))]
+	var key []byte
+	switch kind {
+	case "rsa-1024":
+		key = sessionKeyDER()
+	case "ed25519":
+		pub, _, _ := ed25519.GenerateKey(crand.Reader)
+		key, _ = x509.MarshalPKIXPublicKey(pub)
+	case "ecdsa-p256":
+		k, _ := ecdsa.GenerateKey(elliptic.P256(), crand.Reader)
+		key, _ = x509.MarshalPKIXPublicKey(&k.PublicKey)
+	case "rsa-tiny-modulus":
+		key, _ = x509.MarshalPKIXPublicKey(&rsa.PublicKey{N: big.NewInt(0xfffffffb), E: 3})
+	case "garbage":
+		key = r.Bytes(r.Range(1, 200))
+	case "truncated-rsa":
+		key = sessionKeyDER()[:r.Range(1, 100)]
+	}
+	token := r.Bytes([]int{0, 4, 16, 117, 118, 200}[r.Intn(6)])
+	serverID := []string{"", "srv", strings.Repeat("x", 20)}[r.Intn(3)]
+	wit := func() any {
+		return map[string]any{"key_kind": kind, "key_hex": vm.Hex(key), "verify_token_len": len(token), "server_id": serverID}
+	}
+	serve := func(raw net.Conn) {
+		defer raw.Close()
+		conn := mcnet.WrapConn(raw)
+		var p pk.Packet
+		if conn.ReadPacket(&p) != nil || conn.ReadPacket(&p) != nil { // handshake, login start
+			return
+		}
+		go io.Copy(io.Discard, raw)
+		conn.WritePacket(pk.Marshal(packetid.ClientboundLoginHello, pk.String(serverID), pk.ByteArray(key), pk.ByteArray(token), pk.Boolean(true)))
+		time.Sleep(2 * time.Millisecond)
+	}
+	c.Inflight(fmt.Sprintf("hostile encryption request %v", wit()))
+	cl := bot.NewClient()
+	cl.Auth = bot.Auth{Name: "verif", UUID: "00000000000000000000000000000001", AsTk: "token"}
+	done := make(chan struct{})
+	var err error
+	go func() {
+		defer close(done)
+		c.Guard("live/encryption-request", wit, func() {
+			err = cl.JoinServerWithOptions("enc.test:25565", bot.JoinOptions{MCDialer: pipeDialer{serve}})
+			if err == nil {
+				cl.Close()
+			}
+		})
+	}()
+	select {
+	case <-done:
+	case <-time.After(30 * time.Second):
+		c.Inconclusive("encryption-request session did not finish in 30 s")
+		return
+	}
+	c.Eval(vm.HashStr("enc", kind, fmt.Sprint(len(token), serverID)), true)
+	c.Cover("live.encryption-request." + kind)
 }
